@@ -862,3 +862,137 @@ def c07(ctx):
     ctx.assumptions += ["valgrind's definedness propagation is trusted as taint tracking (under-taints through some vector idioms are possible)",
                         "instruction-latency channels are invisible; only control flow and addresses are decided, as the property is worded",
                         "assembly backends are not executed on this host (their control flow is observed in C05's interpreters)"]
+
+
+# ---------------------------------------------------------------------------------- C05
+
+EMU_TARGETS = ["avr5", "armv6", "armv6m", "armv7m", "riscv32e", "riscv32i", "riscv64i", "xtensa-call0", "xtensa-windowed"]
+
+
+def generator_diff(ctx):
+    """C05 monitor 3: rebuild the bundled generators (their own Makefiles) in scratch, run them exactly as the
+    `generate` rules do, compare byte for byte with the checked-in files.  Second build with ASan+UBSan."""
+    import re, shutil, subprocess
+    n_cmp = 0
+    for variant, extra in (("plain", []), ("asan", ["CC=gcc -fsanitize=address,undefined -fno-sanitize-recover=all"])):
+        root = os.path.join(ctx.scratch, "tools-" + variant)
+        shutil.copytree(REPO + "/tools", root)
+        for gen in ("genarm", "genriscv", "genxtensa"):
+            d = os.path.join(root, gen)
+            mk = os.path.join(d, "Makefile")
+            if not os.path.exists(mk):
+                ctx.violation("generator-missing:" + gen, {"build": "generators", "detail": "tools/%s/Makefile does not exist" % gen})
+                continue
+            shutil.rmtree(os.path.join(d, "bin"), ignore_errors=True)
+            p = subprocess.run(["make", "-C", d, "all"] + extra, stdout=subprocess.PIPE, stderr=subprocess.PIPE)
+            if p.returncode:
+                ctx.violation("generator-build-failed:" + gen, {"build": "generators-" + variant, "report": p.stderr.decode()[-1500:]})
+                continue
+            rules = re.findall(r"^\t(bin/\S+)\s+(\S+)\s+>\s*\.\./\.\./(src/backend/\S+)\s*$", open(mk).read(), re.M)
+            if len(rules) < 3:
+                ctx.inconclusive.append("could not read the generate rules of tools/%s/Makefile" % gen)
+            for binp, arg, target in rules:
+                env = dict(os.environ, ASAN_OPTIONS="detect_leaks=0:abort_on_error=1", UBSAN_OPTIONS="halt_on_error=1:abort_on_error=1")
+                p = subprocess.run([os.path.join(d, binp), arg], stdout=subprocess.PIPE, stderr=subprocess.PIPE, env=env, timeout=120)
+                key = "%s %s -> %s" % (binp, arg, target)
+                if p.returncode:
+                    ctx.violation("generator-crashed:%s:%s" % (gen, variant), {"build": "generators-" + variant, "detail": key, "report": p.stderr.decode()[-2500:]})
+                    continue
+                try:
+                    have = open(os.path.join(REPO, target), "rb").read()
+                except FileNotFoundError:
+                    ctx.violation("generated-file-missing:" + os.path.basename(target), {"build": "generators", "detail": key})
+                    continue
+                n_cmp += 1
+                ctx.add_classes([("gen", variant, target)])
+                if p.stdout != have:
+                    a, b = p.stdout.decode(errors="replace").splitlines(), have.decode(errors="replace").splitlines()
+                    first = next((i for i in range(min(len(a), len(b))) if a[i] != b[i]), min(len(a), len(b)))
+                    ctx.violation("generated-file-differs:" + os.path.basename(target),
+                                  {"build": "generators-" + variant, "detail": "%s: generator output and checked-in file differ at line %d: generator %r / file %r" % (
+                                      key, first + 1, a[first] if first < len(a) else None, b[first] if first < len(b) else None)})
+                elif len(ctx.samples) < 12 and variant == "plain" and arg == "192":
+                    ctx.samples.append({"h": "generator-diff", "rule": key, "bytes": len(have), "identical": True})
+    ctx.count("generator_outputs_compared", n_cmp)
+    ctx.count("evaluations", n_cmp)
+    if n_cmp < 42 and not ctx.viol:
+        ctx.inconclusive.append("only %d generator outputs compared (expected 21 files x 2 builds)" % n_cmp)
+
+
+@check("C05", "exploration", floor=5000)
+def c05(ctx):
+    import subprocess, sys
+    load_replay(ctx)
+    ctx.model_selfcheck()
+    # instrument self-test first: a broken interpreter must never produce a verdict
+    st = subprocess.run([sys.executable, VERIF + "/emu/selftest.py"], stdout=subprocess.PIPE, stderr=subprocess.PIPE)
+    if st.returncode:
+        raise core.Inconclusive("interpreter self-test failed: " + st.stdout.decode() + st.stderr.decode()[-800:])
+    ctx.assumptions.append("interpreters: " + st.stdout.decode().strip())
+    # ---- monitor 1: portable C backend, natively, on every build
+    NR = ctx.q(40, 2000)
+    builds = build_set(ctx, ctx.q(["prod", "gcc-O0", "gcc-O2", "clang-O3", "asan-gcc"], ["prod"] + MATRIX + ["asan-gcc", "asan-clang"]))
+    if not ctx.replay or (ctx.replay.get("build") or "").split("/")[0] not in EMU_TARGETS + ["llvm"]:
+        run_harness_on(ctx, "h_perm.c", builds, ["--p1", NR], ctx.q(2, 16))
+    # ---- monitor 2: assembly backends in the interpreters
+    permtool = os.path.join(ctx.scratch, "permtool")
+    ctx.sh(["gcc", "-O2", "-o", permtool, VERIF + "/model/permtool.c", VERIF + "/model/model.c"])
+    jobs = []
+    sys.path.insert(0, VERIF + "/emu")
+    import llvm_roundtrip, backend_check
+    stub = os.path.join(ctx.scratch, "avrstub")
+    os.makedirs(os.path.join(stub, "avr"), exist_ok=True)
+    open(os.path.join(stub, "avr", "io.h"), "w").write("/* stub */\n")
+    rtdir = os.path.join(ctx.scratch, "llvm")
+    os.makedirs(rtdir, exist_ok=True)
+    backend = REPO + "/src/backend"
+    for t in EMU_TARGETS:
+        for kb in (128, 192, 256):
+            tag = "%s/%d" % (t, kb)
+            base = [sys.executable, VERIF + "/emu/backend_check.py", "--repo", REPO, "--target", t, "--keybits", str(kb), "--permtool", permtool,
+                    "--seed", str(ctx.seed)] + (["--thorough"] if ctx.thorough else [])
+            rp = ctx.replay
+            if rp and rp.get("build") not in (tag, "llvm:" + tag):
+                continue
+            only = ["--only", str(rp["index"])] if rp and rp.get("index") is not None else []
+            if not rp or rp.get("build") == tag:
+                jobs.append({"cmd": base + only, "tag": tag})
+            # LLVM's independent reading of the same file
+            suffix, family, macros, kw, want = backend_check.TARGETS[t]
+            if t in llvm_roundtrip.ASM:
+                path = "%s/tinyjambu-%d-asm-%s.S" % (backend, kb, suffix)
+                obj, err = llvm_roundtrip.assemble(t, path, macros, backend, stub, rtdir) if os.path.exists(path) else (None, "file missing")
+                ctx.count("llvm_assembled_files", 1 if obj else 0)
+                if not obj:
+                    ctx.violation("does-not-assemble:%s" % tag, {"build": "llvm:" + tag, "report": err})
+                    continue
+                if t == "avr5":
+                    continue            # LLVM 14's AVR disassembler is incomplete: assemble-only
+                text, n = llvm_roundtrip.disassembly_text(obj, "tinyjambu_permutation_%d" % kb)
+                if text is None:
+                    ctx.inconclusive.append("llvm-objdump could not decode %s: %s" % (tag, n))
+                    continue
+                tf = os.path.join(rtdir, "%s-%d.txt" % (t, kb))
+                open(tf, "w").write(text)
+                if not rp or rp.get("build") == "llvm:" + tag:
+                    jobs.append({"cmd": base + ["--text", tf] + only, "tag": "llvm:" + tag})
+    ctx.run_jobs(jobs, timeout=3000)
+    if not ctx.replay:
+        if ctx.stats.get("interpreted_programs", 0) < 27 + 18 and not ctx.viol:
+            ctx.inconclusive.append("only %d interpreted programs ran (27 source readings + 18 LLVM readings expected)" % ctx.stats.get("interpreted_programs", 0))
+        # ---- monitor 3
+        generator_diff(ctx)
+    ctx.extra_cov["programs"] = int(ctx.stats.get("interpreted_programs", 0)) + 3
+    ctx.rule = ("30 backend programs: the 3 portable C permutations executed natively on every build (all 128 single-bit states x zero key, all single-bit keys "
+                "x zero state, all-ones, all-zero, random; every round count 1..24; key words and a canary after the struct unchanged) and 27 assembly programs "
+                "(24 .S files, the Xtensa files under both ABIs) preprocessed with the macro set that selects them and executed instruction by instruction in "
+                "interpreters with monitors for result == bit-serial spec, write set, read set, alignment, callee-saved registers, stack pointer, return address, "
+                "encodability (Thumb-1, RV32E register file), data-independent instruction trace per round count. quick: all structured inputs at 3 rounds + 6 random "
+                "inputs for each of {1,2,3,5,8,9,10,20,24} rounds; thorough: all structured inputs and 80 random ones for every round count 1..24. For ARM/Thumb/RISC-V "
+                "the files are also assembled with LLVM 14 and LLVM's disassembly is executed under the same monitors (independent decode); AVR is assemble-only. "
+                "Generated files: the 3 generator directories are rebuilt with their own Makefiles (plain and ASan/UBSan) and the 21 outputs compared byte for byte. "
+                "class = (program, rounds, input family, input index) | native (key size, rounds, input) | generator rule.")
+    ctx.exhaustive = False
+    ctx.assumptions += ["no real or emulated silicon and no vendor assembler: the interpreters were written for this task (self-tested against hand-computed values; "
+                        "ARM, Thumb and RISC-V decodes cross-checked by executing LLVM's disassembly; Xtensa and AVR decodes rest on the self-tests)",
+                        "states and keys are sampled; single-bit families give every tap and every key bit a dedicated witness"]
